@@ -1,8 +1,10 @@
 #!/bin/sh
-# run_all.sh [quick|thorough] : run every registered check in turn, one summary line each
+# run_all.sh [quick|thorough] [pid ...] : run the registered checks (all by default) in turn, one summary line each
 tier=${1:-quick}
+[ $# -gt 0 ] && shift
+pids=${*:-C01 C02 C03 C04 C05 C06 C07 C08 C09 C10 C11 C12 C13 C14 C15 C16 C17 C18 C19 C20}
 cd "$(dirname "$0")/.."
-for p in C01 C02 C03 C04 C05 C06 C07 C08 C09 C10 C11 C12 C13 C14 C15 C16 C17 C18 C19 C20; do
+for p in $pids; do
   ./check $p --tier $tier > /tmp/runall-$tier-$p.log 2>&1; rc=$?
   echo "rc=$rc $(grep -E "tier=" /tmp/runall-$tier-$p.log | tail -1 | cut -c1-160) $(grep -c -E '^DRIFT' /tmp/runall-$tier-$p.log) drift $(grep -c -E '^KNOWN' /tmp/runall-$tier-$p.log) known"
 done
